@@ -128,6 +128,27 @@ PROPS["C07"] = {
     ],
 }
 
+PROPS["C08"] = {
+    "engine": "rwsim",
+    "level": "exploration",
+    "quick_runs": 3000,
+    "thorough_runs": 60000,
+    "quick_wall": 240,
+    "thorough_wall": 2400,
+    "params": {"cfi_p": 1.0, "patch_cfi_p": 0.3, "isa": "x64", "fmt": "elf"},
+    "rule": "seeded x86-64 ELF scenarios with 0-3 CFI procedures (directives at block starts, instruction boundaries and block "
+    "ends, personality/LSDA symbols, remember/restore) and edits at or around directive positions and procedure boundaries, "
+    "patches with no or balanced CFI; the input and output cfiDirectives tables are evaluated by the independent reference "
+    "interpreter sim/cfi_ref.py and compared per instruction; distinct = (module, sessions) digest; non-trivial = at least "
+    "one modification registered and at least one CFI procedure",
+    "real_vs_stub": RW_REAL + "; CFI oracle: sim/cfi_ref.py (independent interpreter)",
+    "assumptions": [
+        "a procedure left without any instruction may be kept empty or dropped (DESIGN 3.4 C08)",
+        "where directives sit exactly at the insertion point, the patch may see the state before or after them",
+        "patch CFI is limited to balanced .cfi_adjust_cfa_offset pairs",
+    ],
+}
+
 # (moved below)
 # engines built separately contribute their own entries
 import importlib as _il
